@@ -282,3 +282,54 @@ def pruned_body(F, b):
     nb = Body(b.fn, b.b)
     nb._succ = [[x for x in ss if x not in bad] for ss in b.succs]
     return nb
+
+
+EXHAUSTIVE_ADAPTERS = re.compile(r"Iterator>?::(for_each|try_for_each|map|try_fold|fold|inspect|filter_map|flat_map)$")
+SHORT_CIRCUIT_ADAPTERS = re.compile(r"Iterator>?::(any|all|find|find_map|position|take_while|skip_while|take|step_by|nth|last|min|max)(_by|_by_key)?$")
+
+
+def closure_loops(F, fn):
+    """[(closure Fn, adapter call bb, adapter name)] for closures created in `fn` and handed to an iterator adapter:
+    `v.iter().for_each(|x| ..)` is a loop whose body is the closure"""
+    out = []
+    if not fn.body:
+        return out
+    b = Body(fn)
+    for bi, t in b.calls():
+        n = callee_name(t) or ""
+        if not re.search(r"Iterator>?::\w+$", n):
+            continue
+        for a in t["args"][1:]:
+            rv = b.def_rvalue(a)
+            if rv is not None and rv["k"] == "agg" and str(rv.get("id", "")).startswith(fn.id + "::{closure"):
+                cf = F.fns.get(rv["id"])
+                if cf is not None and cf.body:
+                    out.append((cf, bi, n))
+    return out
+
+
+def every_item_handled(F, fn, is_target, detail=None):
+    """Every item of every loop of `fn` that contains a target call is handled: native loops by loop_iterations_all_call,
+    iterator-adapter loops by requiring an exhaustive adapter whose closure reaches a target call on every normal return.
+    is_target(term) -> bool.  Returns list of (description, ok)."""
+    b = Body(fn)
+    res = []
+    tb = [bi for bi, t in b.calls() if is_target(t)]
+    for header, ok in loop_iterations_all_call(b, tb, detail):
+        res.append(("loop@%s" % b.site(header), ok))
+    for cf, abb, an in closure_loops(F, fn):
+        cb = Body(cf)
+        ctb = [bi for bi, t in cb.calls() if is_target(t)]
+        if not ctb:
+            continue
+        ok = True
+        if not EXHAUSTIVE_ADAPTERS.search(an):
+            ok = False
+            if detail is not None:
+                detail.append("the items are visited through %s, which can stop before the last item" % an.split("::")[-1])
+        if normal_exit_reachable(cb, 0, blocks_removed=ctb):
+            ok = False
+            if detail is not None:
+                detail.append("the closure can return normally without the call")
+        res.append(("closure@%s" % b.site(abb), ok))
+    return res
